@@ -9,6 +9,7 @@ Import ListNotations.
 Require Import Naga.IR.Syntax.
 Require Import Naga.Valid.ValidatorModel Naga.Valid.CfLegal Naga.Valid.Reach Naga.Valid.BindingRule.
 Require Import Naga.Valid.CfProofs Naga.Valid.ReachProofs Naga.Valid.BindingProofs Naga.Valid.ModuleProofs.
+Require Import Naga.Valid.ValidatorModelFixed Naga.Valid.FixedProofs.
 Open Scope string_scope.
 Open Scope Z_scope.
 
@@ -219,3 +220,45 @@ Proof.
   - vm_compute. reflexivity.
   - vm_compute. reflexivity.
 Qed.
+
+(* ------------------------------------------------------------------ *)
+(* the validator as repaired by the proposed fix (Valid/ValidatorModelFixed.v; the check decides on every
+   run which of the two transliterations /repo's ir/validate.go matches): complete AND sound *)
+
+Theorem fixed_validator_cf_complete :
+  forall m, (forall f, In f (m_functions m) -> cf_legal (f_body f)) -> cf_errors (validate_model_fx m) = [].
+Proof. intros m H. now apply fixed_cf_exact. Qed.
+Print Assumptions fixed_validator_cf_complete.
+
+Theorem fixed_validator_cf_sound :
+  forall m, cf_errors (validate_model_fx m) = [] -> forall f, In f (m_functions m) -> cf_legal (f_body f).
+Proof. intros m H. now apply fixed_cf_exact. Qed.
+Print Assumptions fixed_validator_cf_sound.
+
+Theorem fixed_validator_bindings_complete :
+  forall m, binding_rule_ok m -> binding_errors_fx (validate_model_fx m) = [].
+Proof. intros m H. now apply fixed_bindings_exact. Qed.
+Print Assumptions fixed_validator_bindings_complete.
+
+Theorem fixed_validator_bindings_sound :
+  forall m, binding_errors_fx (validate_model_fx m) = [] -> binding_rule_ok m.
+Proof. intros m H. now apply fixed_bindings_exact. Qed.
+Print Assumptions fixed_validator_bindings_sound.
+
+(* the witnesses that refute completeness of the pinned validator are accepted by the repaired one,
+   and a genuinely illegal module is still rejected *)
+Definition m_two_pairs_one_ep : module :=
+  mkmodule [ty_vec4f] [] [uniform_at "a" 0 0; uniform_at "b" 0 0] [] []
+           [mkep "vs" StVertex [0; 0; 0]
+                 (mkfunc "vs" [] (Some (mkres O (Some (BBuiltin "BuiltinPosition" false)))) []
+                         [EGlobalVariable 0; ELoad O; EGlobalVariable 1; ELoad 2%nat; EBinary BAdd 1%nat 3%nat]
+                         [RHandle O; RHandle O; RHandle O; RHandle O; RHandle O]
+                         [SEmit 1 2; SEmit 3 5; SReturn (Some 4%nat)] [])] [].
+Example fixed_validator_on_witnesses :
+  validate_model_fx m_switch_break = [] /\ validate_model_fx m_loop_in_continuing = [] /\
+  validate_model_fx m_discard_in_continuing = [] /\ validate_model_fx m_shared_pair = [] /\
+  validate_model_fx m_rich = [] /\
+  validate_model_fx (module_of [SLoop [] [SBreak] (Some O); SContinue]) =
+    [mkverr VBreakInContinuing "helper" 0 None; mkverr VContinueOutsideLoop "helper" 1 None] /\
+  validate_model_fx m_two_pairs_one_ep = [mkverr VEpDupBinding "" (-1) None].
+Proof. repeat split; vm_compute; reflexivity. Qed.
